@@ -17,8 +17,8 @@ type BeaconBlockValBackend interface {
 	// Checks if the (slot, proposer) pair was seen, does not do any tracking.
 	SeenBlock(slot common.Slot, proposer common.ValidatorIndex) bool
 
-	// When the block is fully validated (except proposer index check, but incl. signature check),
-	// the combination can be marked as seen to avoid future duplicate blocks from being propagated.
+	// When the block is fully validated (incl. signature check and proposer index check),
+	// the combination is marked as seen to avoid future duplicate blocks from being propagated.
 	MarkBlock(slot common.Slot, proposer common.ValidatorIndex)
 }
 
@@ -79,8 +79,6 @@ func ValidateBeaconBlock(ctx context.Context, block *common.BeaconBlockEnvelope,
 		return GossipValidatorResult{REJECT, errors.New("invalid block signature")}
 	}
 
-	blockVal.MarkBlock(block.Slot, block.ProposerIndex)
-
 	// [REJECT] The block is proposed by the expected proposer_index for the block's slot in the context of
 	// the current shuffling (defined by parent_root/slot).
 
@@ -116,6 +114,8 @@ func ValidateBeaconBlock(ctx context.Context, block *common.BeaconBlockEnvelope,
 	if proposer != block.ProposerIndex {
 		return GossipValidatorResult{REJECT, fmt.Errorf("expected proposer %d, but block was proposed by %d", proposer, block.ProposerIndex)}
 	}
+
+	blockVal.MarkBlock(block.Slot, block.ProposerIndex)
 
 	return GossipValidatorResult{ACCEPT, nil}
 }
